@@ -18,6 +18,10 @@ class LoopMixin(object):
         def go(s, it):
             if it[0] == "cursor":
                 it = ("rows", it[1])   # iterating a cursor = iterating its rows
+            if it[0] == "tuple" and 0 < len(it[1]) <= 8 and all(is_const(x) for x in it[1]) \
+                    and not any(isinstance(n, (ast.Break, ast.Continue))
+                                for n in ast.walk(node)):
+                return self.unroll(node, s, frame, it[1])
             return self.run_loop(node, s, frame, it)
         return self._each(node.iter, state, frame, go)
 
@@ -26,6 +30,23 @@ class LoopMixin(object):
             raise AnalysisError("while/else not modelled")
         return self.run_loop(node, state, frame, None)
 
+    def unroll(self, node, state, frame, items):
+        """for x in (c1, c2, ...): body  -- executed once per constant"""
+        res = [(state, NORMAL)]
+        saved = self._unroll_tag
+        for idx, item in enumerate(items):
+            self._unroll_tag = saved * 10 + idx + 1
+            nxt = []
+            for (s, o) in res:
+                if o.kind != "normal":
+                    nxt.append((s, o))
+                    continue
+                for (s1, o1) in self.assign(node.target, item, s, frame, node):
+                    nxt.extend(self.exec_block(node.body, s1, frame))
+            res = nxt
+        self._unroll_tag = saved
+        return res
+
     def _assigned_names(self, node):
         names = set()
         for sub in ast.walk(node):
@@ -33,8 +54,19 @@ class LoopMixin(object):
                 names.add(sub.id)
         return names
 
-    def _scrub(self, state, loopid, lo, hi, path):
+    def _scrub(self, state, loopid, lo, hi, path, start=None, body_events=None):
+        # statements executed during this iteration (also inside helpers the
+        # body calls): their rows belong to this iteration's element
+        body_sites = set()
+        if body_events is not None:
+            from .engine import flat_events
+            for x, _ in flat_events(body_events, True, (), True):
+                if x["k"] in ("sql", "script", "sql_dynamic"):
+                    body_sites.add(x["site"])
+
         def local(t):
+            if t[0] in ("row", "rows", "cursor", "lastrowid") and t[1] in body_sites:
+                return True
             if t[0] == "elem" and len(t) > 2 and t[2] == loopid:
                 return True
             if t[0] == "loopvar" and t[1] == loopid:
@@ -50,20 +82,41 @@ class LoopMixin(object):
         state.fresh = tuple(fr for fr in state.fresh if not mentions(fr[2], local))
         for k in [k for k in state.sel if lo <= k[1] <= hi and k[0] == path]:
             del state.sel[k]
+        if start is not None:
+            # row facts established during the body describe this iteration only
+            srf, sfr, ssel = start
+            state.rowfacts = tuple(rf for rf in state.rowfacts if rf in srf)
+            state.fresh = tuple(fr for fr in state.fresh if fr in sfr)
+            for k in [k for k in state.sel if k not in ssel]:
+                del state.sel[k]
         state.pc = tuple(c for c in state.pc if not mentions(c[0], local))
         # registry slots keyed by a loop-local value belong to this iteration's
         # element only
         for k in [k for k in state.regs if mentions(k[1], local)]:
             del state.regs[k]
 
-    def _widen(self, s, frame, assigned, loopid):
-        """loop-assigned non-flag variables become stable 'loopvar' terms"""
+    def _widen(self, s, frame, assigned, loopid, start_env=None, iterterm=None):
+        """loop-assigned non-flag variables become stable 'loopvar' terms;
+        `v = v + X` accumulators become ('accum', '+', base, X, iter, loop)"""
         env = s.envs[frame.fid]
         for nm in assigned:
             v = env.get(nm)
             if v is not None and not (is_const(v) and
                                       isinstance(v[1], (bool, type(None)))):
-                env[nm] = ("loopvar", loopid, nm)
+                acc = None
+                if start_env is not None and nm in start_env and v[0] == "binop" \
+                        and v[1] == "+":
+                    sv = start_env[nm]
+                    x = None
+                    if v[2] == sv:
+                        x = v[3]
+                    elif v[3] == sv:
+                        x = v[2]
+                    if x is not None:
+                        base = sv[2] if sv[0] == "accum" and sv[5] == loopid else sv
+                        if not (sv[0] == "accum" and sv[5] == loopid and sv[3] != x):
+                            acc = ("accum", "+", base, x, iterterm, loopid)
+                env[nm] = acc if acc is not None else ("loopvar", loopid, nm)
 
     def run_loop(self, node, state, frame, iterterm):
         is_for = isinstance(node, ast.For)
@@ -81,6 +134,7 @@ class LoopMixin(object):
         seen = {}
         work = []
         assigned = self._assigned_names(node)
+        accums = {}
 
         def add_exit(s, iters):
             a = s.abstract(frame)
@@ -128,19 +182,30 @@ class LoopMixin(object):
             for b2 in starts:
                 pre_abs = (b2.dirty, b2.wrote)
                 npc = len(b2.pc)
+                start_env = dict(b2.envs[frame.fid])
+                start_rf = (set(b2.rowfacts), set(b2.fresh), set(b2.sel))
                 for (s2, o) in self.exec_block(node.body, b2, frame):
                     alt = {"pre": pre_abs, "events": s2.events, "out": o.kind,
                            "post": (s2.dirty, s2.wrote), "pc": s2.pc[npc:]}
                     alts.append(alt)
                     if o.kind in ("normal", "continue"):
                         s2.events = []
-                        self._widen(s2, frame, assigned, loopid)
-                        self._scrub(s2, loopid, lo, hi, path)
+                        self._widen(s2, frame, assigned, loopid, start_env, iterterm)
+                        for nm in assigned:
+                            vv = s2.envs[frame.fid].get(nm)
+                            if vv is not None and vv[0] == "accum" and vv[5] == loopid:
+                                if nm in accums and accums[nm] != vv:
+                                    accums[nm] = ("loopvar", loopid, nm)
+                                else:
+                                    accums[nm] = vv
+                            elif nm in accums:
+                                accums[nm] = ("loopvar", loopid, nm)
+                        self._scrub(s2, loopid, lo, hi, path, start_rf, alt["events"])
                         add_iter(s2, iters + 1)
                     elif o.kind == "break":
                         s2.events = []
                         self._widen(s2, frame, assigned, loopid)
-                        self._scrub(s2, loopid, lo, hi, path)
+                        self._scrub(s2, loopid, lo, hi, path, start_rf, alt["events"])
                         add_exit(s2, iters + 1)
                     else:
                         s2.events = pre_events + [loop_ev] + \
@@ -151,6 +216,9 @@ class LoopMixin(object):
         self.loop_rounds[loopid] = max(self.loop_rounds.get(loopid, 0), maxiters)
         for a, (s, iters) in exits.items():
             s.events = pre_events + [loop_ev]
+            env_x = s.envs[frame.fid]
             self._widen(s, frame, assigned, loopid)
+            # an accumulator denotes its base value after zero iterations too
+            env_x.update(accums)
             results.append((s, NORMAL))
         return results
